@@ -43,6 +43,8 @@ type input struct {
 	Pre     [][]int64 `json:"pre,omitempty"`
 	Mids    [][]int64 `json:"mids,omitempty"`
 	CritPos int       `json:"crit_pos,omitempty"`
+	// Term: close the popper's termination channel while it waits for the mutex (token already taken)
+	Term bool `json:"term,omitempty"`
 }
 
 // ---- tie T: statement order in Pop and Push ----
@@ -356,9 +358,13 @@ func run(raw json.RawMessage) (common.Case, error) {
 			ok = ok && startPush(p)
 		}
 		popDone := make(chan []*notifier.Alert, 1)
-		go func() { popDone <- q.Pop(nil) }()
+		termc := make(chan struct{})
+		go func() { popDone <- q.Pop(termc) }()
 		waiters++
 		ok = ok && waitFor(func() bool { return !alert.VerifC46Token(q) && alert.VerifC46Waiters(q) >= waiters })
+		if in.Term && ok {
+			close(termc) // the popper holds the token and is blocked on the mutex
+		}
 		for _, p := range in.Mids[pos:] {
 			ok = ok && startPush(p)
 		}
@@ -368,9 +374,10 @@ func run(raw json.RawMessage) (common.Case, error) {
 			return c, fmt.Errorf("could not line the calls up behind the queue mutex")
 		}
 		var out []int64
+		nilret := false
 		select {
 		case r := <-popDone:
-			out = ids(r)
+			out, nilret = ids(r), r == nil
 		case <-time.After(5 * time.Second):
 			c.GoPred, c.Sig, c.Coq = "Pop holding the token did not finish after the mutex was released", "hang", "CSkip"
 			return c, nil
@@ -385,9 +392,12 @@ func run(raw json.RawMessage) (common.Case, error) {
 			}
 			return common.List(o)
 		}
-		c.Coq = common.App("CMid", common.Z(int64(in.Cap)), common.Z(int64(in.Batch)), lists(in.Pre), lists(in.Mids), common.ZList(out), common.Tuple(common.ZList(rest), common.Bool(tok)))
-		c.Obs = map[string]any{"out": out, "queue": rest, "token": tok}
+		c.Coq = common.App("CMid", common.Z(int64(in.Cap)), common.Z(int64(in.Batch)), lists(in.Pre), lists(in.Mids), common.Bool(in.Term), common.ZList(out), common.Bool(nilret), common.Tuple(common.ZList(rest), common.Bool(tok)))
+		c.Obs = map[string]any{"out": out, "returned_nil": nilret, "queue": rest, "token": tok}
 		c.Class = fmt.Sprintf("mid/pushes=%d/crit_pos=%d", len(in.Mids), pos)
+		if in.Term {
+			c.Class = "mid/term-while-waiting-for-mutex"
+		}
 		c.Nontrivial = pos >= 1
 		if len(rest) > in.Cap {
 			c.GoPred, c.Sig = "queue longer than its capacity", "over-capacity"
@@ -397,6 +407,9 @@ func run(raw json.RawMessage) (common.Case, error) {
 		}
 		if len(rest) > 0 && !tok {
 			c.GoPred, c.Sig = "alerts queued, no popper running, wake-up token not set", "lost-wakeup"
+		}
+		if nilret && c.GoPred == "" {
+			c.GoPred, c.Sig = "Pop returned nil although it had already received the wake-up token", "token-swallowed"
 		}
 		return c, nil
 	case "conc":
@@ -555,6 +568,7 @@ func gen(r *rand.Rand, tier string, n int) []any {
 				in.Mids = append(in.Mids, mkp(r.Intn(4)))
 			}
 			in.CritPos = r.Intn(len(in.Mids) + 1)
+			in.Term = r.Intn(3) == 0
 			out = append(out, in)
 		case k < 16:
 			var p []int64
